@@ -37,11 +37,18 @@ Db(rows) == << [key |-> <<"r", 3>>, dyn |-> FALSE, cls |-> [i \in 1..Len(rows) |
                            [id |-> 102, head |-> C("member", <<V(1), Cons(V(2), V(3))>>), body |-> C("member", <<V(1), V(3)>>), nv |-> 3] >>] >>
 
 CONSTANTS NR,       \* number of rows of the table
-          NEST      \* TRUE: include the nested calls
+          NEST,     \* TRUE: include the nested calls
+          LISTS     \* TRUE: the sub-space of tables whose witnesses are lists (the replayer also builds them in pieces)
+\* witnesses that are lists: the same list in two rows, a variant with an unbound tail, a plain row
+RowsL == { R(A("a"), MkList(<<A("p"), A("q")>>), I(1)), R(A("b"), MkList(<<A("p"), A("q")>>), I(2)), R(A("a"), Cons(A("p"), V(1)), I(3)), R(A("a"), A("b"), I(1)),
+           R(A("b"), MkList(<<A("p"), V(1)>>), I(2)) }
+SimpleL == { C(op, <<t, g, i>>) : op \in {"findall", "bagof", "setof"}, t \in {X, Z, C("-", <<X, Y>>)},
+                                  g \in {R(X, Y, Z), C("^", <<Z, R(X, Y, Z)>>), C("^", <<X, R(X, Y, Z)>>), C(",", <<R(X, Y, Z), C("==", <<X, A("a")>>)>>)},
+                                  i \in {L, MkList(<<V(7), V(8)>>)} }
 VARIABLES st, hist, q, rows
 gvars == <<st, hist, q, rows>>
-GInit == /\ rows \in [1..NR -> Rows]
-         /\ q \in Simple \cup (IF NEST THEN Nested \cup Indirect ELSE {})
+GInit == /\ rows \in [1..NR -> (IF LISTS THEN RowsL ELSE Rows)]
+         /\ q \in (IF LISTS THEN SimpleL ELSE Simple \cup (IF NEST THEN Nested \cup Indirect ELSE {}))
          /\ st = InitState(Db(rows), q, 9)
          /\ hist = <<>>
 GNext == /\ ~Terminal(st)
